@@ -69,8 +69,8 @@ STD_ASSUMPTIONS = {
 }
 
 
-INTERNER_ITEMS = ['Interner<T>::*', "Symbol<'_, T>::into_untracked", 'From<u32> for UntrackedSymbol<T>::from', 'Default for Interner<T>::default']
-REGISTRY_ITEMS = ['Registry::new', 'Registry::intern_type_id', 'Registry::register_type', 'Registry::register_types', 'Registry::map_into_portable']
+INTERNER_ITEMS = ['Interner<T>::*', "Symbol<'_, T>::into_untracked", 'From<u32> for UntrackedSymbol<T>::from', 'UntrackedSymbol<T>::id', 'Default for Interner<T>::default']
+REGISTRY_ITEMS = ['Registry::new', 'Default for Registry::default', 'Registry::intern_type_id', 'Registry::register_type', 'Registry::register_types', 'Registry::map_into_portable']
 IMPL_ITEMS = ['IntoPortable for *::into_portable']
 
 PROPS = {
@@ -82,12 +82,12 @@ PROPS = {
         level_note='Assumed contracts: BTreeMap entry API, lawful Ord/Clone of key types, mem::replace. Registry::register_types, Registry::map_into_portable (closures capturing &mut inside map().collect()) and PortableRegistryBuilder::finish (enumerate) are no longer external: they are verified after rule R20 (an iterator pipeline ending in collect into a Vec is replaced by the loop std defines it by: next() until None, results pushed in order), with loop invariants; the Kani harness map_into_portable_in_order and the native histories run them on the real std iterators as a cross-check of that rule. TypeParameter::into_portable is verified after rule R19 (Option::map on a closure literal replaced by its definition, a match). From<Registry> for PortableRegistry IS verified (as an identical-text inherent twin, tuple-pattern closure rewritten to a let, rule R8) under the assumption that BTreeMap iterates in ascending key order. Registries obtained by decoding the output of the library: by theorem_roundtrip (unit codec, C07) the decoded value EQUALS the encoded registry, so it inherits density and closure - that theorem is part of the obligations of this property only through C07, not re-proved here. Partial correctness for registration. All id guarantees up to 2^32 entries.',
         verus=[('interner', INTERNER_ITEMS), ('registry', REGISTRY_ITEMS + ['tmpl::lemma_dense_*', 'tmpl::lemma_img_closed', 'tmpl::lemma_*_mono']),
                ('registry_impls', IMPL_ITEMS),
-               ('portable', ['PortableRegistry::resolve', 'PortableRegistryBuilder::*', 'PortableType::new', 'Registry::types',
+               ('portable', ['PortableRegistry::resolve', 'PortableRegistry::types', 'PortableRegistryBuilder::*', 'PortableType::*', 'Registry::types',
                              '::core::default::Default for PortableRegistryBuilder::default',
                              'From<Registry> for PortableRegistry::from', 'tmpl::lemma_from_registry_dense', 'tmpl::lemma_sorted_*']),
                ('retain', ['PortableRegistry::retain', 'tmpl::lemma_*'])],
         kani_quick=['builder_new_is_empty', 'map_into_portable_in_order'],
-        kani_thorough=['builder_new_is_empty', 'map_into_portable_in_order'],
+        kani_thorough=['builder_new_is_empty', 'map_into_portable_in_order', 'std_map_collect_is_the_loop', 'std_enumerate_collect_is_the_loop'],
         assumptions=['A1', 'A2', 'A3', 'A4', 'A5', 'A6', 'A7', 'A9', 'PARTIAL', 'MODULAR', 'A12', 'VSTD', 'TOOLS'],
     ),
     'C02': dict(
@@ -97,7 +97,7 @@ PROPS = {
         level_text='The trait contract ensures image_of(self, out, final table): path segments, parameter names, field names/order/type names, variant names/indices, docs and array lengths equal, sequences related element-wise in order, each reference an in-range id whose table entry is the identity of the referenced MetaType. register_type ensures the returned id resolves to the type\'s identity, and Registry::inv states that every stored definition is the image of info_of(identity) w.r.t. the current table (stable under growth: proved monotonicity lemmas). Holds for recursive and mutually recursive types because type_info() is an unconstrained external function.',
         level_note='Termination of registration is NOT proved (partial correctness). Coherence assumption A9 (type_info deterministic per identity). String conversion &str -> String assumed to preserve characters. register_types / map_into_portable are verified after rule R20 (an iterator pipeline ending in collect into a Vec is replaced by the loop std defines it by: next() until None, results pushed in order) - Kani-bounded order check for map_into_portable on the real iterators as a cross-check; TypeParameter::into_portable is verified (rule R19). For the types of src/impls.rs the coherence assumption is discharged by unit alias (every impl that shares an identity forwards its definition), which is part of this check.',
         verus=[('registry', REGISTRY_ITEMS + ['tmpl::lemma_*']), ('registry_impls', IMPL_ITEMS + ['tmpl::lemma_*']), ('alias', ['TypeInfo for *', 'tmpl::identity::*'])],
-        kani_quick=['map_into_portable_in_order'], kani_thorough=['map_into_portable_in_order'],
+        kani_quick=['map_into_portable_in_order', 'std_string_from_and_to_vec_small'], kani_thorough=['map_into_portable_in_order', 'std_string_from_and_to_vec_small', 'std_map_collect_is_the_loop'],
         assumptions=['A4', 'A5', 'A6', 'A7', 'A9', 'PARTIAL', 'MODULAR', 'A12', 'VSTD', 'TOOLS'],
     ),
     'C05': dict(
@@ -118,7 +118,8 @@ PROPS = {
         level_text='Proved on the real text of retain and its nested retain_type, for every well-formed registry and every filter (an arbitrary FnMut): no out-of-bounds access; termination on cyclic graphs (decreases n - |mapping|); the result is again well-formed (entry i carries id i, every referenced id resolves); the returned map is injective, its domain has as many elements as the new registry, every new id has a pre-image (bijection onto the new ids); every retained entry equals its original with each referenced id replaced through the map and nothing else changed (entry_ren over all eight definition kinds, parameters, fields and variant fields) - so everything a retained entry references is retained too; every id the filter accepts is retained, and every retained id is reachable in the old registry from an accepted id (accepted_retained / retained_reachable).',
         level_note='The filter is an arbitrary FnMut; Verus models each call as replacing the closure state, so "accepts i" is phrased over fs[i], the state the filter had when it was asked about i - for a filter whose answers do not depend on hidden state this is the statement as given. Loop invariants on all seven loops; rule R6 (continue in for-loops). Assumed: mem::replace contract (A3), vstd BTreeMap specs, machine integers (A7).',
         verus=[('retain', ['PortableRegistry::retain', 'tmpl::lemma_*'])],
-        kani_quick=[], kani_thorough=[],
+        # complete cross-check of the one std contract retain depends on (A3), on the real core::mem::replace
+        kani_quick=['std_mem_replace_u32'], kani_thorough=['std_mem_replace_u32'],
         assumptions=['A3', 'A7', 'VSTD', 'TOOLS'],
     ),
     'C11': dict(
@@ -140,7 +141,7 @@ PROPS = {
         level_text='Every Interner and builder operation is proved, for all element types, values and prior states satisfying the representation invariant, to behave exactly like the duplicate-free list that is its abstract view (new value -> appended and the next free index, equal value -> its first index and nothing changes, get/resolve -> stored value or None); each operation requires only the invariant and re-establishes it, so the statement holds for every finite history (lemma_builder_history over operation scripts).',
         level_note='PortableRegistryBuilder::new IS verified (derived Default impl taken from the rustc expansion, Interner::default, Interner::new). finish (`elements().iter().enumerate().map(|(i, ty)| ..).collect()`) IS verified after rule R20 (an iterator pipeline ending in collect into a Vec is replaced by the loop std defines it by: next() until None, results pushed in order): entry i of the result carries id i and the i-th registered value; the native builder scripts run it on the real iterators (a Kani harness over <= 2 registrations did not finish in 40 minutes - BTreeMap keyed by Type<PortableForm> under CBMC - and was removed); Kani builder_new_is_empty cross-checks new on the real code. Assumed: BTreeMap entry API contract, lawful Ord/Clone of Type<PortableForm>. Ids guaranteed up to 2^32 entries.',
         verus=[('interner', INTERNER_ITEMS), ('portable', ['PortableRegistryBuilder::*', '::core::default::Default for PortableRegistryBuilder::default', 'tmpl::lemma_builder_history'])],
-        kani_quick=['builder_new_is_empty'], kani_thorough=['builder_new_is_empty'],
+        kani_quick=['builder_new_is_empty', 'std_enumerate_collect_is_the_loop'], kani_thorough=['builder_new_is_empty', 'std_enumerate_collect_is_the_loop'],
         assumptions=['A1', 'A5', 'A7', 'A12', 'VSTD', 'TOOLS'],
     ),
     'C14': dict(
@@ -148,9 +149,10 @@ PROPS = {
         level='proof',
         technique='Verus: total-function contract on PortableRegistry::resolve; canonicity theorem and panic-freedom of the derive-generated decoders (no precondition, every callee precondition discharged)',
         level_text='resolve(id) is proved, for EVERY registry value and every u32, to return Some(entry at position id) when id is in range and None otherwise; it has no precondition, so it cannot panic. The 17 derive-generated decode functions are verified without any precondition on the input: Verus discharges every callee precondition and arithmetic check in them, so the crate\'s own decoding code cannot panic on any byte string and returns Ok or Err. theorem_canonical: whatever decodes successfully re-encodes to exactly the bytes that were consumed.',
-        level_note='JSON deserialisation (serde-derive visitors driving serde_json) is NOT under contract: bounded native leg only (about 100k corrupted JSON texts: no panic, accepted texts are registries). NOT covered at all: memory proportional to the input, and panic-freedom / totality of the dependency\'s primitive decoders (Vec, String, Compact ... are assumed to satisfy the Decode contract of the model, see C06). Stack depth is not considered.',
+        level_note='JSON deserialisation (serde-derive visitors driving serde_json) is NOT under contract: bounded native leg only (about 100k corrupted JSON texts: no panic, accepted texts are registries). Memory proportional to the input is NOT a contract here (no verifier in reach reasons about allocation): bounded native check only - a counting allocator records the largest single allocation request while every byte position of the small encodings is overwritten with the compact encodings of 100 000, 2^30 - 1 and u32::MAX; budget 1 MiB + 1 KiB per input byte. The dependency\'s primitive decoders are assumed to satisfy the Decode contract of the model (see C06); for Compact<u32>, u32 and Option that contract - and with it panic-freedom on every input - is discharged on the REAL dependency code by the complete Kani leaves dec_*_all_inputs (every input of at most 6 / 7 / 10 / 11 bytes, loop-free); Vec and String remain assumed. Stack depth is not considered.',
         verus=[('portable', ['PortableRegistry::resolve']), ('codec', ['crate::scale::Decode for *::decode', 'tmpl::lemma_*', 'tmpl::theorem_canonical'])],
-        kani_quick=[], kani_thorough=[],
+        # complete Kani leaves: the real Compact<u32> decoder and the derived leaf decoders neither panic nor accept a non-canonical input, for every input
+        kani_quick=['dec_compact_u32_all_inputs', 'dec_array_all_inputs'], kani_thorough=['dec_compact_u32_all_inputs', 'dec_array_all_inputs', 'dec_primitive_all_inputs', 'dec_option_symbol_all_inputs', 'dec_bitsequence_all_inputs'],
         assumptions=['CODEC', 'VSTD', 'TOOLS'],
     ),
     'C16': dict(
@@ -171,7 +173,8 @@ PROPS = {
         level_text='Every builder step is proved to produce exactly the supplied component and leave all others unchanged (FieldBuilder, VariantBuilder, Variants, FieldsBuilder, TypeBuilder, Type::new, Field::new, Variant::new, TypeDef*::new); MetaForm push_field lists a field unless its type is PhantomData, PortableForm push_field always; docs()/docs_portable() keep docs exactly with the docs feature and are the identity without it, docs_always() always keeps them. Closure-taking builders are specified through the closure\'s own requires/ensures.',
         level_note='TypeDefTuple::new (`into_iter().filter(|ty| !ty.is_phantom()).collect()`; the prophetic Filter spec of vstd cannot be connected to Seq::filter) IS verified after rule R20 (an iterator pipeline ending in collect into a Vec is replaced by the loop std defines it by: next() until None, results pushed in order): the result is exactly the non-phantom members in order; the native enumeration of all member triples runs it on the real iterators (CBMC ran out of memory on a Kani harness for it). MetaType::new / is_phantom contracts are proved in unit metatype. Initial emptiness comes from the Default impls (verified). The derive\'s generated code is not in the repository and not covered. Assumed: to_vec contract.',
         verus=[('build', ['*'])],
-        kani_quick=[], kani_thorough=[],
+        # bounded cross-checks, on the real std code, of rule R20 (c) (filter + collect) and of the to_vec / String::from contracts
+        kani_quick=['std_filter_collect_is_the_loop'], kani_thorough=['std_filter_collect_is_the_loop', 'std_string_from_and_to_vec_small'],
         assumptions=['A4', 'A8', 'A12', 'VSTD', 'TOOLS'],
     ),
     'C18': dict(
@@ -204,8 +207,10 @@ PROPS = {
         level_note='Assumed: the model of parity-scale-codec\'s own Encode/Decode impls for u8, u32, Compact<u32>, String, Option, Vec, PhantomData, &T and of its Input/Output traits (module `scale` in contracts/codec.vrs) - dependency code, not verified. Rules R14 (compile-time `const _` assertion blocks dropped), R15 (::scale:: paths), R16 (immediately invoked `move` closures in enum decoders inlined). Kani cross-check of the real dependency on the leaves (complete harnesses) and native comparison with an independent encoder/decoder on enumerated registries run alongside and are listed as bounded.',
         verus=[('codec', ['crate::scale::Encode for *::encode_to', 'crate::scale::Decode for *::decode', 'tmpl::lemma_*'])],
         # the complete Kani leaves execute the REAL dependency (Compact<u32>, u32, u8 encoders): they cross-check the assumed model on its scalars
-        kani_quick=['enc_symbol_compact', 'enc_def_primitive', 'enc_def_array'],
-        kani_thorough=['enc_symbol_compact', 'enc_def_primitive', 'enc_def_sequence', 'enc_def_compact', 'enc_def_array', 'enc_def_tuple', 'enc_field_a', 'enc_def_bitsequence'],
+        # ... and the complete decode leaves run its Compact<u32> / u32 / Option decoders and the derived decoders of the leaf types on EVERY input
+        kani_quick=['enc_symbol_compact', 'enc_def_primitive', 'enc_def_array', 'dec_compact_u32_all_inputs', 'dec_symbol_all_inputs', 'dec_primitive_all_inputs'],
+        kani_thorough=['enc_symbol_compact', 'enc_def_primitive', 'enc_def_sequence', 'enc_def_compact', 'enc_def_array', 'enc_def_tuple', 'enc_field_a', 'enc_def_bitsequence',
+                       'dec_compact_u32_all_inputs', 'dec_symbol_all_inputs', 'dec_primitive_all_inputs', 'dec_option_symbol_all_inputs', 'dec_array_all_inputs', 'dec_bitsequence_all_inputs'],
         assumptions=['CODEC', 'VSTD', 'TOOLS'],
     ),
     'C15': dict(
@@ -261,7 +266,8 @@ PROPS = {
         level_text='theorem_roundtrip: an input that starts with the bytes the library encoder writes for a registry decodes to exactly that registry and leaves exactly the rest (for every PortableRegistry value, well-formed or not). Encoding is deterministic because encode_to is proved to append the value of the spec function enc. theorem_injective: two registries with the same encoding are equal (both are what the verified decoder returns on it). The theorems call the real extracted decoder, whose contract (sound, canonical, complete) is proved for all 17 generated decode functions.',
         level_note='Assumed: the model of the dependency primitives (see C06) - in particular that the primitive decoders are complete and canonical (true of parity-scale-codec 3: Compact rejects non-minimal encodings, String validates UTF-8). Injectivity is stated for encodings consumed by an Input; any byte string can be one.',
         verus=[('codec', ['crate::scale::Encode for *::encode_to', 'crate::scale::Decode for *::decode', 'tmpl::lemma_*', 'tmpl::theorem_*'])],
-        kani_quick=[], kani_thorough=[],
+        # the complete decode leaves run the real dependency decoders the theorems assume to be sound / canonical / complete, on every input
+        kani_quick=['dec_compact_u32_all_inputs', 'dec_option_symbol_all_inputs'], kani_thorough=['dec_compact_u32_all_inputs', 'dec_option_symbol_all_inputs', 'dec_symbol_all_inputs', 'dec_array_all_inputs', 'dec_bitsequence_all_inputs'],
         assumptions=['CODEC', 'VSTD', 'TOOLS'],
     ),
 }
